@@ -99,6 +99,8 @@ h("VerifGrpcMTLS", SV, AU, "FullMethod any ASCII string; peer: none / not TLS / 
 
 h("VerifHTTPAuthWiring", ".", ["zz_verif_main_auth.go"], "all 2^5 combinations of {htpasswd, mTLS, allow_unauthenticated_reads, endpoint metrics, idle timeout} that validateConfig admits; request to /status, /metrics or / (GET, HEAD, PUT) with Basic header present/absent, user known or not, password check arbitrary, TLS state none / unverified / verified", "startHttpServer wires every route behind the configured authentication", unwind=16)
 
+h("VerifHTTPAuthWiringLDAP", ".", ["zz_verif_main_auth.go", "zz_verif_main_ldap.go"], "LDAP authentication x {allow_unauthenticated_reads, endpoint metrics, idle timeout}; request to /status, /metrics or / (GET, HEAD, PUT) with Authorization header absent / Basic user:pass / not base64 / without colon; directory server: user found or not, bind with the password accepted or not", "startHttpServer with LDAP: no request panics a handler or blocks it (served and refused outcomes are witnesses, not assertions: LDAP credential checking is outside C13)", unwind=16)
+
 BS = ["zz_verif_bytestream.go"]
 BSB = "upload to blobs/<hash>/5 in <=%d messages, each of symbolic length 0..8; first write_offset any int64; later resource names empty/same/changed; finish_write on the last message or not; stream ends with EOF or a transport error; blob pre-existing or not; stub cache accepts iff exactly the declared bytes arrive; 3 goroutines, <=2 preemptions, every ready select case explored"
 h("VerifBytestreamWrite2", SV, BS, BSB % 2, "ByteStream.Write: committed_size, early return for existing blobs, refusal of malformed uploads, no goroutine left", unwind=24)
@@ -195,7 +197,7 @@ P = {
  "C11": (["VerifValidateFilesDirs", "VerifValidateSymlinks", "VerifValidateNil", "VerifGetActionResultInline", "VerifGetActionResultMiss", "VerifUpdateActionResult", "VerifHTTPPutAC"], [], ["strings are ASCII (Go byte strings and SMT code-point strings agree there)"], ["field-by-field fidelity of proto.Marshal/Unmarshal and protojson", "non-ASCII strings"]),
  "C12": (["VerifProxyGetAC", "VerifProxyGetCasRaw", "VerifProxyGetCasZstd", "VerifProxyGetCasZstdShort", "VerifPutRawProxy"], ["VerifProxyGetCasZstdZ", "VerifPutCasZstdProxy", "VerifPutCasRawProxy"], [FSM, CODEC, HASH, "the backend is an arbitrary cache.Proxy stub"], ["minio/azure/gcs SDK calls", "real HTTP body semantics"]),
  "C13": (["VerifGrpcBasicAuth", "VerifGrpcBasicAuthAccepts", "VerifGrpcMTLS", "VerifHTTPAuthWiring", "VerifHTTPClientCert"], [], ["auth.CheckSecret is an arbitrary predicate", "strings are ASCII"], ["htpasswd hash checking, TLS handshake and certificate verification, LDAP", "whether grpc-go calls the interceptors for every method"]),
- "C14": (["VerifReadArbitrary2", "VerifReadZstd4", "VerifReadUncompressed4", "VerifGetCasZstd", "VerifGetSpecial", "VerifGetTree", "VerifBatchReadBlobs", "VerifBytestreamWrite2", "VerifFindMissingProxy1", "VerifValidatedACProxy", "VerifSpliceBlob", "VerifFetchBlob"], ["VerifReadArbitrary3", "VerifGetCasZstdAsZstd", "VerifGetCasRawAsZstd", "VerifProxyGetCasZstd"], [FSM, CODEC], ["panics inside stubbed libraries", "resource exhaustion by volume"]),
+ "C14": (["VerifReadArbitrary2", "VerifReadZstd4", "VerifReadUncompressed4", "VerifGetCasZstd", "VerifGetSpecial", "VerifGetTree", "VerifBatchReadBlobs", "VerifBytestreamWrite2", "VerifFindMissingProxy1", "VerifValidatedACProxy", "VerifSpliceBlob", "VerifFetchBlob", "VerifHTTPAuthWiringLDAP"], ["VerifReadArbitrary3", "VerifGetCasZstdAsZstd", "VerifGetCasRawAsZstd", "VerifProxyGetCasZstd"], [FSM, CODEC], ["panics inside stubbed libraries", "resource exhaustion by volume"]),
  "C15": (["VerifGrpcACKeyMangling", "VerifLookupKey", "VerifGetSpecial", "VerifHTTPGet", "VerifHTTPInstanceName", "VerifUpdateActionResultKey"], [], ["sha256 is injective on byte strings (digest texts are fresh 64-hex strings with pairwise (content equal <=> digest equal))", "strings are ASCII", "disk.Cache replaced by a recording stub"], ["sha256 itself", "non-ASCII instance names", "isolation after eviction (C03/C04)", "the HTTP path-prefix clause: harnesses VerifParseRequestURL / VerifHTTPGrpcSameKey exist but no solver decides 'every URL /I/ac/h matches ^/?(.*/)?(ac/|cas/)([a-f0-9]{64})$ with instance I' within budget (cvc5 and z3 time out at 60 s even with |I| <= 6), so the URL grammar is not claimed"]),
  "C16": (["VerifBytestreamWrite2", "VerifBytestreamWriteZstd2", "VerifQueryWriteStatus"], ["VerifBytestreamWrite3"], ["disk.Cache replaced by a contract stub (Put consumes the reader and accepts exactly the declared bytes)"], ["grpc-go's own stream behaviour", "more than 3 messages", "more than 2 preemptive context switches"]),
  "C17": (["VerifLRUReserve3", "VerifLRURemove", "VerifLRUAdd3", "VerifPutAC", "VerifProxyGetAC"], ["VerifLRUReserve4", "VerifPutCasZstd", "VerifPutCasRaw", "VerifProxyGetCasRaw"], [FSM], ["real unlink latency"]),
